@@ -1228,6 +1228,9 @@ void ICACHE_FLASH_ATTR supla_esp_recv_callback(void *arg, char *pdata,
                      supla_esp_cfg.Email + oldMailLen + 1, partPasswordLen);
               new_cfg.Email[newMailLen + 1 + partPasswordLen] = '\0';
             }
+          } else if (newMailLen < SUPLA_EMAIL_MAXSIZE - 1) {
+            // no overflow part is stored: the rest of the old name must not become one
+            new_cfg.Email[newMailLen + 1] = '\0';
           }
         } else {
           // mail was too long, so truncate password:
